@@ -641,7 +641,7 @@ func (fr *Frame) load(lv *LVal, st *State) *Term {
 		return A(s.acc(lv.Idx), fr.load(p, st))
 	case lvElem:
 		es := fr.enc.w.sortOf(lv.Ty)
-		arr := Select(e.heap(st, heapSliceName(es), arraySort("Int", arraySort("Int", es))), lv.Base)
+		arr := Select(e.heap(st, heapSliceNameT(lv.Ty), arraySort("Int", arraySort("Int", es))), lv.Base)
 		return Select(arr, lv.Index)
 	}
 	panic("bad lval")
@@ -696,7 +696,7 @@ func (fr *Frame) store(lv *LVal, v *Term, st *State) {
 		fr.store(p, A(s.ctor(), args...), st)
 	case lvElem:
 		es := w.sortOf(lv.Ty)
-		name := heapSliceName(es)
+		name := heapSliceNameT(lv.Ty)
 		h := e.heap(st, name, arraySort("Int", arraySort("Int", es)))
 		st.Set(name, Store(h, lv.Base, Store(Select(h, lv.Base), lv.Index, v)))
 	}
@@ -705,6 +705,13 @@ func (fr *Frame) store(lv *LVal, v *Term, st *State) {
 // assumeWF adds the well-formedness facts of a value obtained from outside.
 func (fr *Frame) assumeWF(t *Term, ty types.Type, st *State, depth int) {
 	enc := fr.enc
+	if tis := enc.w.P.TypeInvs[types.TypeString(ty, nil)]; len(tis) > 0 {
+		for _, ti := range tis {
+			if len(ti.Vars) == 1 {
+				fr.assumeTypeInv(ti, []*Term{t}, []types.Type{ty}, st)
+			}
+		}
+	}
 	switch u := ty.Underlying().(type) {
 	case *types.Pointer, *types.Map, *types.Chan:
 		cnt := st.Get("$cnt", "Int")
@@ -740,4 +747,23 @@ func constantString(c *ssa.Const) string {
 		return us
 	}
 	return strings.Trim(s, `"`)
+}
+
+// assumeTypeInv instantiates an assumed library type invariant.
+func (fr *Frame) assumeTypeInv(ti *TypeInv, vals []*Term, tys []types.Type, st *State) {
+	enc := fr.enc
+	env := &Env{w: enc.w, vars: map[string]TV{}, state: st, scope: ti.Scope, where: "typeinv " + ti.Key}
+	for i, v := range ti.Vars {
+		env.vars[v] = TV{vals[i], tys[i]}
+	}
+	defer func() {
+		if r := recover(); r != nil {
+			if se, ok := r.(specErr); ok {
+				panic(unsupportedErr{"contract error: " + se.msg})
+			}
+			panic(r)
+		}
+	}()
+	enc.assume(env.trBool(ti.Expr), "library type invariant "+ti.Key)
+	enc.w.assumptions["library type invariant "+ti.Key+": "+ti.Text] = true
 }
